@@ -42,7 +42,10 @@ SPEC = {
                 "the overlay shim verif_hsmgr.go plays the peers with flynn/noise (so peer time, peer index and certificate are chosen by "
                 "the harness), names hostinfos / payloads / underlay addresses by numbers and classifies the packets that reached the "
                 "recording socket; it gives each fresh pending handshake its own empty remote list",
-                "gen/Consts_HostMap.v (MaxHostInfosPerVpnIp) is printed from the compiled-in constant"],
+                "gen/Consts_HostMap.v (MaxHostInfosPerVpnIp) is printed from the compiled-in constant",
+                "the node's own-address tables (myVpnAddrsTable, myVpnNetworksTable) are built by the real pki.go newCertState from generated "
+                "certificate material (v1 only, v2 only, v1+v2 with equal networks, v1+v2 where v2 certifies extra addresses; "
+                "initiating_version 1 and 2); the model's own-address set is every address of every certificate the node holds"],
     "assumptions": ["the certificate addresses the handshake.Machine hands to the manager are those of the verified peer certificate (C01, C05)",
                     "crypto/rand.Read delivers the bytes of crypto/rand.Reader (the harness scripts the 4-byte index reads)",
                     "operations are atomic (each entry point holds the hostmap / handshake-manager locks for its critical section; "
